@@ -705,6 +705,7 @@ func c21StructEnum(c *ev.Collector, t *testing.T, pool []c21Key) {
 					if i%7 == 0 {
 						key, certDER = pool[2], certRSA
 					}
+					c21Mem = i
 					k := p12DefaultKnobs("c21.enum", i)
 					k.Cert.Alg, k.Key.Alg = algs[0], algs[1]
 					target := &k.Cert
